@@ -840,6 +840,18 @@ func (c *clusterClient) doresultfn(
 				for ei = i; ei < len(commands) && !isMulti(commands[ei]) && !isExec(commands[ei]); ei++ {
 				}
 				if mi >= 0 && ei < len(commands) && isMulti(commands[mi]) && isExec(commands[ei]) && resps[mi].val.string() == ok { // a transaction is found.
+					if mode == RedirectRetry {
+						// a retry (unlike a redirect) does not prove that the block was not executed:
+						// re-send it only if every command inside it may be retried
+						safe := true
+						for k := mi + 1; k < ei; k++ {
+							safe = safe && commands[k].IsRetryable()
+						}
+						if !safe {
+							mi, ei = -1, -1 // not handled: a redirect of a later member may still re-send the block
+							continue
+						}
+					}
 					mu.Lock()
 					retries.Redirects++
 					nr := retries.m[nc]
